@@ -227,6 +227,11 @@ func (w *Whisper) FetchFromArchive(arhiveID int, from, until, now Timestamp) (*T
 	untilInterval := r.interval(until)
 	step := r.secondsPerPoint
 
+	// Zero-length time range: always include the next point
+	if fromInterval == untilInterval {
+		untilInterval = untilInterval.Add(step)
+	}
+
 	if baseInterval == 0 {
 		values := make([]Value, (untilInterval-fromInterval)/Timestamp(step))
 		for i := range values {
@@ -238,11 +243,6 @@ func (w *Whisper) FetchFromArchive(arhiveID int, from, until, now Timestamp) (*T
 			step:      step,
 			values:    values,
 		}, nil
-	}
-
-	// Zero-length time range: always include the next point
-	if fromInterval == untilInterval {
-		untilInterval = untilInterval.Add(step)
 	}
 
 	points, err := w.fetchRawPoints(arhiveID, fromInterval, untilInterval)
